@@ -40,42 +40,65 @@ L(t) == <<"lit", t>>
 Bin(o, a, b) == <<"bin", o, a, b>>
 Un(u, a) == <<"un", u, a>>
 
-Pairs ==
-  {Bin(o1, Bin(o2, L(a), L(b)), L(c)) : o1 \in BinOps, o2 \in BinOps, a \in Lits, b \in Lits, c \in Lits}
+\* families, by outermost operator `top` (an operator with a parameter: TLC
+\* would otherwise enumerate every family at start-up)
+Pairs(top) ==
+  IF top \notin BinOps THEN {} ELSE
+  {Bin(top, Bin(o2, L(a), L(b)), L(c)) : o2 \in BinOps, a \in Lits, b \in Lits, c \in Lits}
   \cup
-  {Bin(o1, L(a), Bin(o2, L(b), L(c))) : o1 \in BinOps, o2 \in BinOps, a \in Lits, b \in Lits, c \in Lits}
+  {Bin(top, L(a), Bin(o2, L(b), L(c))) : o2 \in BinOps, a \in Lits, b \in Lits, c \in Lits}
 
-UnBin ==
-  {Un(u, Bin(o, L(a), L(b))) : u \in UnOps, o \in BinOps, a \in Lits, b \in Lits}
-  \cup {Bin(o, Un(u, L(a)), L(b)) : u \in UnOps, o \in BinOps, a \in Lits, b \in Lits}
-  \cup {Bin(o, L(a), Un(u, L(b))) : u \in UnOps, o \in BinOps, a \in Lits, b \in Lits}
-  \cup {Un(u1, Un(u2, L(a))) : u1 \in UnOps, u2 \in UnOps, a \in Lits}
-  \cup {Un(u, L(a)) : u \in UnOps, a \in Lits}
-  \cup {Bin(o, L(a), L(b)) : o \in BinOps, a \in Lits, b \in Lits}
-  \cup {L(a) : a \in Lits \cup {"e", "pi"}}
+UnBin(top) ==
+  IF top = "lit" THEN {L(a) : a \in Lits \cup {"e", "pi"}}
+  ELSE
+  (IF top \in UnOps THEN
+     {Un(top, Bin(o, L(a), L(b))) : o \in BinOps, a \in Lits, b \in Lits}
+     \cup {Un(top, Un(u2, L(a))) : u2 \in UnOps, a \in Lits}
+     \cup {Un(top, L(a)) : a \in Lits}
+   ELSE {})
+  \cup
+  (IF top \in BinOps THEN
+     {Bin(top, Un(u, L(a)), L(b)) : u \in UnOps, a \in Lits, b \in Lits}
+     \cup {Bin(top, L(a), Un(u, L(b))) : u \in UnOps, a \in Lits, b \in Lits}
+     \cup {Bin(top, L(a), L(b)) : a \in Lits, b \in Lits}
+   ELSE {})
 
-Tricky ==
-  {Bin(o1, Bin(o2, L(a), Un(u, L(b))), L(c)) : o1 \in BinOps, o2 \in BinOps, u \in UnOps, a \in Lits2, b \in Lits2, c \in Lits2}
-  \cup {Bin(o, Un(u1, Un(u2, L(a))), L(b)) : o \in BinOps, u1 \in UnOps, u2 \in UnOps, a \in Lits2, b \in Lits2}
-  \cup {Un(u1, Bin(o, L(a), Un(u2, L(b)))) : o \in BinOps, u1 \in UnOps, u2 \in UnOps, a \in Lits2, b \in Lits2}
-  \cup {Bin(o, L(a), Un(u1, Un(u2, L(b)))) : o \in BinOps, u1 \in UnOps, u2 \in UnOps, a \in Lits2, b \in Lits2}
+Tricky(top) ==
+  (IF top \in BinOps THEN
+     {Bin(top, Bin(o2, L(a), Un(u, L(b))), L(c)) : o2 \in BinOps, u \in UnOps, a \in Lits2, b \in Lits2, c \in Lits2}
+     \cup {Bin(top, Un(u1, Un(u2, L(a))), L(b)) : u1 \in UnOps, u2 \in UnOps, a \in Lits2, b \in Lits2}
+     \cup {Bin(top, L(a), Un(u1, Un(u2, L(b)))) : u1 \in UnOps, u2 \in UnOps, a \in Lits2, b \in Lits2}
+   ELSE {})
+  \cup
+  (IF top \in UnOps THEN
+     {Un(top, Bin(o, L(a), Un(u2, L(b)))) : o \in BinOps, u2 \in UnOps, a \in Lits2, b \in Lits2}
+   ELSE {})
 
-Trees == (IF "pairs" \in Families THEN Pairs ELSE {})
-         \cup (IF "unbin" \in Families THEN UnBin ELSE {})
-         \cup (IF "tricky" \in Families THEN Tricky ELSE {})
+Trees(top) == (IF "pairs" \in Families THEN Pairs(top) ELSE {})
+              \cup (IF "unbin" \in Families THEN UnBin(top) ELSE {})
+              \cup (IF "tricky" \in Families THEN Tricky(top) ELSE {})
 
-TreeInit == x \in Trees
-TreeNext == UNCHANGED x
+\* The trees are spread over one sub-tree of the state graph per top-level
+\* operator so that TLC's workers evaluate them in parallel:
+\*   <<"root">>  ->  <<"top", o>>  ->  every tree of the families whose
+\*   outermost operator is o   (literals hang below the pseudo operator "lit")
+Tops == BinOps \cup UnOps \cup {"lit"}
+IsTree == x[1] \in {"lit", "un", "bin"}
+TreeInit == x = <<"root">>
+TreeNext == \/ x[1] = "root" /\ \E o \in Tops : x' = <<"top", o>>
+            \/ x[1] = "top" /\ x' \in Trees(x[2])
 TreeSpec == TreeInit /\ [][TreeNext]_x
 
 \* M (C18): the ladder and the documented operator-precedence evaluation both
 \* compute the value of the tree from either rendering
 Same(a, b) == a.kind = b.kind /\ (a.kind = "val" => a = b)
 LadderComputesFold ==
+  IsTree =>
   LET f == Fold(x) IN
   /\ Same(ExprOutcome(RenderMin(x)), f)
   /\ Same(ExprOutcome(RenderFull(x)), f)
 ReferenceComputesFold ==
+  IsTree =>
   LET f == Fold(x) IN
   /\ Same(MWOutcome(RenderMin(x)), f)
   /\ Same(MWOutcome(RenderFull(x)), f)
